@@ -84,6 +84,7 @@ def parseEvent (s : String) : Option Sim.Event :=
     pure (.backendBytes j d)
   | ["X", j] => do pure (.backendClose (← j.toNat?))
   | ["E"] => some .expire
+  | ["K", p] => do pure (.poolRemove (← p.toNat?))
   | _ => none
 
 def simInit (cfg : Sim.Cfg) (pools : List (Bytes × Bool)) (table : List (Nat × Nat × Sim.RSet)) : Sim.State :=
@@ -410,6 +411,7 @@ def stepLine (line : String) : String :=
   if line.startsWith "elastic " then elasticLine (line.drop 8).toString else
   if line.startsWith "connio " then connioLine (line.drop 7).toString else
   match (line.trimAscii.toString.splitOn " ").filter (· ≠ "") with
+  | ["monitor", p1, p2] => if Route.monitorCycle (p1 != "0") (p2 != "0") then "banned" else "clear"
   | ["hash", k] =>
     match fromHex k with
     | some key => s!"{goSlot key}"
